@@ -138,6 +138,10 @@ package files
 //@         implies(mtimeSet, !c.FileInfo.MTime.IsZero())
 //@ }
 //
+//@ spec func noTwins(m map[string]*Content) bool {
+//@     return forallStr(func(k string) bool { return !(mapHas(m, k) && mapHas(m, k+"/")) })
+//@ }
+//
 //@ spec func planMapOK(m map[string]*Content, mtimeSet bool) bool {
 //@     return forallKeys(m, func(k string) bool { return planEntryOK(m[k], mtimeSet) })
 //@ }
